@@ -76,6 +76,8 @@ class RulesMixin:
         ctx = self.ctx
         ty = ty.strip()
         ty = TYPE_ALIASES.get(ty, ty)
+        if ty.startswith("map "):
+            return self.make_map(ty[4:].strip(), name)
         alts = _split_top(ty, "|")
         if len(alts) > 1:
             k = ctx.choose(len(alts), f"type({name})", alts)
@@ -238,10 +240,18 @@ class RulesMixin:
             return None
         return self.reg.classes.get(str(obj.cls))
 
+    def assume_clause(self, cl, env, old_env=None, module=None, why=""):
+        prev = getattr(self, "qmode", "prove")
+        self.qmode = "assume"
+        try:
+            v = self.spec_eval(cl, env, old_env, module)
+        finally:
+            self.qmode = prev
+        self.ctx.assume(self.as_z3_bool(v), why or cl.name)
+
     def assume_inv(self, obj: SObj, cc: ClassContract):
         for cl in cc.inv:
-            v = self.spec_eval(cl, {"self": obj}, None)
-            self.ctx.assume(self.as_z3_bool(v), f"inv {cl.name}")
+            self.assume_clause(cl, {"self": obj}, None, None, f"inv {cl.name}")
 
     def as_z3_bool(self, v):
         t = ops.truth(self.ctx, v)
@@ -249,6 +259,12 @@ class RulesMixin:
 
     # ============================================================== spec evaluation
     def spec_eval(self, cl: Clause, env: Dict[str, Any], old_env: Optional[Dict[str, Any]], module=None):
+        if module is None:
+            slf = env.get("self")
+            if isinstance(slf, SObj) and isinstance(slf.cls, type) and slf.cls.__module__.startswith("hypercorn"):
+                from .source import module_info
+
+                module = module_info(slf.cls.__module__)
         fr = Frame(f"spec:{cl.name}", module, spec=True)
         fr.locals.update(env)
         if old_env is not None:
@@ -319,10 +335,24 @@ class RulesMixin:
     def bind_contract_args(self, fc: FnContract, args, kwargs, fr) -> Dict[str, Any]:
         names = self.param_names(fc)
         env: Dict[str, Any] = {}
+        vararg = None
+        try:
+            _mi, _node = find_def(fc.qualname)
+            if _node.args.vararg is not None:
+                vararg = _node.args.vararg.arg
+                npos = len(_node.args.posonlyargs + _node.args.args)
+                names = names[:npos]
+        except Exception:
+            pass
         for i, a in enumerate(args):
             if i >= len(names):
+                if vararg is not None:
+                    env[vararg] = tuple(args[len(names):])
+                    break
                 raise mk_exc(TypeError, f"{fc.qualname}: too many arguments", where=fr.where())
             env[names[i]] = a
+        if vararg is not None and vararg not in env:
+            env[vararg] = ()
         for k, v in kwargs.items():
             if k not in names:
                 raise mk_exc(TypeError, f"{fc.qualname}: unexpected keyword {k}", where=fr.where())
@@ -365,9 +395,16 @@ class RulesMixin:
         ctx = self.ctx
         env = self.bind_contract_args(fc, args, kwargs, fr)
         unit = getattr(self, "unit_name", "?")
+        cmod = None
+        try:
+            from .source import module_info
+
+            cmod = module_info(fc.qualname.split(":")[0])
+        except Exception:
+            cmod = None
         for cl in fc.requires:
-            v = self.spec_eval(cl, env, None)
-            ctx.prove(f"{unit}.call.{cl.name}", self.as_z3_bool(v), cl.text, fr.where(), note=f"precondition of {fc.qualname}")
+            v = self.spec_eval(cl, env, None, cmod)
+            ctx.prove(f"{unit}.call.{cl.name}", self.as_z3_bool(v), cl.text, fr.where(), note=f"precondition of {fc.qualname}", props=cl.props)
         old_env = self.snapshot_env(env)
         # exceptional alternatives
         alts = ["normal"]
@@ -380,11 +417,11 @@ class RulesMixin:
             when = fc.raises[exc_name]
             if when:
                 cl = Clause(f"{fc.qualname}.raises.{exc_name}.when", when, (), ast.parse(when, mode="eval").body)
-                ctx.assume_checked(self.as_z3_bool(self.spec_eval(cl, old_env, None)), "raises-when")
+                ctx.assume_checked(self.as_z3_bool(self.spec_eval(cl, old_env, None, cmod)), "raises-when")
             for cl in fc.raises_clauses.get(exc_name, []):
                 if cl.text == when:
                     continue
-                ctx.assume(self.as_z3_bool(self.spec_eval(cl, env, old_env)))
+                ctx.assume(self.as_z3_bool(self.spec_eval(cl, env, old_env, cmod)))
             if ctx.check() == z3.unsat:
                 raise PathEnd("exceptional outcome infeasible")
             raise PyRaise(SObj(self.exc_class(exc_name), {"args": ()}), f"{fc.qualname} (contract) called at {fr.where()}")
@@ -395,7 +432,7 @@ class RulesMixin:
         env2["result"] = result
         if fc.returns_expr:
             cl = Clause("returns_expr", fc.returns_expr, (), ast.parse(fc.returns_expr, mode="eval").body)
-            result = self.spec_eval(cl, env2, old_env)
+            result = self.spec_eval(cl, env2, old_env, cmod)
             env2["result"] = result
         # the callee re-establishes the invariant of its own object
         slf = env.get("self")
@@ -404,7 +441,7 @@ class RulesMixin:
             if cc is not None:
                 self.assume_inv(slf, cc)
         for cl in fc.ensures:
-            ctx.assume(self.as_z3_bool(self.spec_eval(cl, env2, old_env)), f"ensures {cl.name}")
+            self.assume_clause(cl, env2, old_env, cmod, f"ensures {cl.name}")
         if ctx.check() == z3.unsat:
             raise PathEnd("callee postcondition unsatisfiable on this path")
         self.run_ghost(fc.ghost_post, env2, fr)
@@ -483,12 +520,25 @@ class RulesMixin:
             return self.make_symbolic(f"enum {type(v).__module__}:{type(v).__qualname__}", name)
         raise Unsupported(f"cannot havoc {name} (value {v!r}); declare its type in the loop spec")
 
-    def run_ghost(self, stmts: List[str], env, fr):
+    def run_ghost(self, stmts: List[str], env, fr, module=None):
         if not stmts:
             return
-        f2 = Frame("ghost", None)
+        f2 = Frame("ghost", module)
         f2.locals.update(env)
         f2.allow_frozen = True
+        us = self.unit_self
+
+        def caller_count(name):
+            if us is not None and name in us.fields:
+                us.fields[name] = ops.binop(self.ctx, ast.Add(), us.fields[name], 1)
+
+        def caller_set(name, value):
+            if us is not None and name in us.fields:
+                us.fields[name] = value
+
+        f2.locals["caller_count"] = GhostFn(caller_count)
+        f2.locals["caller_set"] = GhostFn(caller_set)
+        f2.locals["caller"] = us
         for s in stmts:
             tree = ast.parse(s)
             self.exec_block(tree.body, f2)
@@ -497,6 +547,7 @@ class RulesMixin:
     def call_callback(self, obj: SObj, cb: Callback, args, kwargs, fr):
         ctx = self.ctx
         unit = getattr(self, "unit_name", "?")
+        self.callback_present(obj, cb, fr)
         env = {"self": obj}
         for i, a in enumerate(args):
             env[f"a{i}"] = a
@@ -504,12 +555,22 @@ class RulesMixin:
             env["e"] = args[0]
         from .contracts import mk_clauses
 
+        gmod0 = None
+        if isinstance(obj.cls, type) and obj.cls.__module__.startswith("hypercorn"):
+            from .source import module_info as _mi
+
+            gmod0 = _mi(obj.cls.__module__)
         for cl in mk_clauses(f"{cb.name}.pre", cb.requires):
-            v = self.spec_eval(cl, env, None)
-            ctx.prove(f"{unit}.call.{cl.name}", self.as_z3_bool(v), cl.text, fr.where(), note=f"precondition of callback {cb.name}")
+            v = self.spec_eval(cl, env, None, gmod0)
+            ctx.prove(f"{unit}.call.{cl.name}", self.as_z3_bool(v), cl.text, fr.where(), note=f"precondition of callback {cb.name}", props=cl.props)
         if cb.record:
             self.traces.setdefault(cb.record, []).append(args[0] if len(args) == 1 else tuple(args))
-        self.run_ghost(cb.ghost, env, fr)
+        gmod = None
+        if isinstance(obj.cls, type) and obj.cls.__module__.startswith("hypercorn"):
+            from .source import module_info
+
+            gmod = module_info(obj.cls.__module__)
+        self.run_ghost(cb.ghost, env, fr, module=gmod)
         if cb.raises:
             names = ["normal"] + [getattr(c, "__name__", str(c)) for c in cb.raises]
             k = ctx.choose(len(names), f"cb({cb.name})@{fr.line}", names)
@@ -549,8 +610,8 @@ class RulesMixin:
         return cache[key]
 
     def yield_point(self, fr, why=""):
-        """another task may run here: prove the unit object's invariant, then havoc every shared
-        object under its invariant and rely"""
+        """another task may run here: prove the unit object's invariant and the guarantee of the
+        segment that ends, then havoc every shared object under its invariant and rely"""
         ctx = self.ctx
         self.n_yields = getattr(self, "n_yields", 0) + 1
         us = self.unit_self
@@ -560,45 +621,122 @@ class RulesMixin:
             if cc is not None:
                 for cl in cc.inv:
                     v = self.spec_eval(cl, {"self": us}, None)
-                    ctx.prove(f"{unit}.yield.{cl.name}", self.as_z3_bool(v), cl.text, fr.where(), note=f"invariant before yield ({why})")
-                self.check_guarantee(fr, why)
-        for obj in list(getattr(self, "shared", [])):
-            self.havoc_object(obj)
+                    ctx.prove(f"{unit}.yield.{cl.name}", self.as_z3_bool(v), cl.text, fr.where(), note=f"invariant before yield ({why})", props=cl.props)
+                self.check_guarantee(fr.where(), why)
+        self.havoc_all(use_rely=True)
         if us is not None:
             self.segment_start = self.snapshot_env({"self": us})
 
-    def check_guarantee(self, fr, why):
+    def reachable_objects(self):
+        seen = {}
+        stack = []
+        for fr in getattr(self, "frames", []):
+            stack.extend(fr.locals.values())
+        stack.extend(getattr(self, "roots", []))
+        if self.unit_self is not None:
+            stack.append(self.unit_self)
+        while stack:
+            v = stack.pop()
+            if isinstance(v, MaybeUnbound):
+                v = v.value
+            if isinstance(v, SObj):
+                if id(v) in seen:
+                    continue
+                seen[id(v)] = v
+                stack.extend(v.fields.values())
+            elif isinstance(v, (PList,)):
+                if id(v) in seen:
+                    continue
+                seen[id(v)] = v
+                stack.extend(v.items)
+            elif isinstance(v, PDict):
+                if id(v) in seen:
+                    continue
+                seen[id(v)] = v
+                stack.extend(v.items.values())
+            elif isinstance(v, SymMap):
+                if id(v) in seen:
+                    continue
+                seen[id(v)] = v
+                stack.extend(x for _, x in v.cache)
+            elif isinstance(v, (SymOpt,)):
+                stack.append(v.value)
+            elif isinstance(v, SymMaybe):
+                stack.append(v.value)
+            elif isinstance(v, tuple):
+                stack.extend(v)
+            elif isinstance(v, BoundMethod):
+                stack.append(v.obj)
+            elif isinstance(v, Closure):
+                f = v.frame
+                while f is not None:
+                    stack.extend(f.locals.values())
+                    f = f.parent
+        return seen
+
+    def havoc_all(self, use_rely=True):
+        reach = self.reachable_objects()
+        self.shared = [o for o in getattr(self, "shared", []) if id(o) in reach]
+        objs = list(self.shared)
+        olds = []
+        for obj in objs:
+            olds.append(self.havoc_object_fields(obj))
+        for obj, old in zip(objs, olds):
+            self.assume_after_havoc(obj, old, use_rely)
+
+    def own_task(self):
+        fc = self.reg.fns.get(getattr(self, "unit_qual", ""))
+        return getattr(fc, "task", None) if fc is not None else None
+
+    def check_guarantee(self, where, why):
         """the atomic segment that ends here must satisfy the rely other tasks assume"""
         us = self.unit_self
         cc = self.class_contract(us)
         seg = getattr(self, "segment_start", None)
-        if cc is None or seg is None or not cc.rely:
+        if cc is None or seg is None:
             return
         unit = getattr(self, "unit_name", "?")
-        for cl in cc.rely:
+        mine = self.own_task()
+        clauses = list(cc.rely)
+        for task, cls_ in cc.task_rely.items():
+            if task != mine:
+                clauses.extend(cls_)
+        for cl in clauses:
             v = self.spec_eval(cl, {"self": us}, seg)
-            self.ctx.prove(f"{unit}.guarantee.{cl.name}", self.as_z3_bool(v), cl.text, fr.where(), note=f"guarantee of the segment ending at ({why})")
+            self.ctx.prove(f"{unit}.guarantee.{cl.name}", self.as_z3_bool(v), cl.text, where, note=f"guarantee of the segment ending at ({why})", props=cl.props)
 
-    def havoc_object(self, obj: SObj, use_rely=True):
-        from . import models
-
+    def havoc_object_fields(self, obj: SObj):
         model = self.model_for(obj.cls)
         if model is not None and hasattr(model, "havoc"):
             model.havoc(self, obj)
-            return
+            return None
         cc = self.class_contract(obj)
         if cc is None:
-            return
+            return None
         old = self.snapshot_env({"self": obj})
         for f in self.mutable_fields(obj, cc):
             if f in obj.fields and obj.fields[f] is UNSET and not cc.fields.get(f, "").startswith("maybe"):
                 continue
+            if f not in obj.fields and f not in cc.ghost and not cc.fields.get(f, "").startswith("maybe"):
+                continue
             self.havoc_field(obj, f)
+        return old
+
+    def assume_after_havoc(self, obj: SObj, old, use_rely=True):
+        cc = self.class_contract(obj)
+        if cc is None or old is None:
+            return
         self.assume_inv(obj, cc)
         if use_rely:
-            for cl in cc.rely:
-                v = self.spec_eval(cl, {"self": obj}, old)
-                self.ctx.assume(self.as_z3_bool(v), f"rely {cl.name}")
+            clauses = list(cc.rely)
+            if obj is self.unit_self:
+                clauses += cc.task_rely.get(self.own_task(), [])
+            for cl in clauses:
+                self.assume_clause(cl, {"self": obj}, old, None, f"rely {cl.name}")
+
+    def havoc_object(self, obj: SObj, use_rely=True):
+        old = self.havoc_object_fields(obj)
+        self.assume_after_havoc(obj, old, use_rely)
 
     # ============================================================== with
     def exec_with(self, s, fr, is_async, idx=0):
@@ -791,8 +929,7 @@ class RulesMixin:
         for name in target_names:
             fr.locals.pop(name, None)
         if heap:
-            for obj in list(getattr(self, "shared", [])):
-                self.havoc_object(obj, use_rely=False)
+            self.havoc_all(use_rely=False)
             tr = self.traces
             for k in list(tr):
                 tr[k] = [TraceGap(label)]
@@ -1032,6 +1169,11 @@ class RulesMixin:
         if isinstance(cls, str):
             return models.MODEL_CLASSES.get(cls)
         return models.MODEL_BY_REAL.get(cls)
+
+
+class GhostFn:
+    def __init__(self, fn):
+        self.fn = fn
 
 
 class TraceGap:
